@@ -36,10 +36,16 @@ Theorem C20_parser_accepts_only_wellformed_values : forall nm attrs k l nm' attr
 Proof. exact accepted_value_wellformed. Qed.
 Print Assumptions C20_parser_accepts_only_wellformed_values.
 
-(* the registry's loop with its groupStart flag brackets exactly the maximal runs of equally named groups *)
-Theorem C20_registry_order : forall ts, events_of ts = flat_map seg_events (segments ts).
+(* the registry's loop with its groupStart flag brackets exactly the maximal runs of equally named groups, whatever the name
+   filters select (a group none of whose tests is selected still gets its two callbacks); without filters it is the loop
+   shared with C16 *)
+Theorem C20_registry_order : forall fs ts, events_sel fs ts = flat_map (seg_events fs) (segments ts).
 Proof. exact reg_loop_segments. Qed.
 Print Assumptions C20_registry_order.
+
+Theorem C20_registry_order_nofilter : forall ts, events_sel [] ts = events_of ts.
+Proof. exact events_nofilter. Qed.
+Print Assumptions C20_registry_order_nofilter.
 
 (* the parser run on any sequence of well-formed printed messages (identifier names, distinct keys, unescaped pieces free of
    special characters) followed by any text without # returns exactly the messages that were printed *)
@@ -49,26 +55,26 @@ Proof. exact parse_items. Qed.
 Print Assumptions C20_parse_print.
 
 (* what the (repaired) writer prints for a run, callback by callback through currtest_ / currGroup_ / groupOpen_ *)
-Theorem C20_writer_items : forall dur ts, tc_items Esc true dur tc_init (events_of ts) = flat_map (seg_items dur) (segments ts).
+Theorem C20_writer_items : forall dur fs ts, tc_items Esc true dur tc_init (events_sel fs ts) = flat_map (seg_items dur fs) (segments ts).
 Proof. exact run_items. Qed.
 Print Assumptions C20_writer_items.
 
 (* round trip of a whole run: the stream (followed by any summary text without #) parses to messages_of -- all byte strings
-   as names, paths and messages, all pass/fail/ignore patterns, test bodies that do not print *)
-Theorem C20_stream : forall dur ts trailer, forallb noprint ts = true -> no_hash trailer = true ->
-  tc_parse (render_tc dur ts ++ trailer) = Some (messages_of dur ts).
+   as names, paths and messages, all pass/fail/ignore patterns, all strict name filters, test bodies that do not print *)
+Theorem C20_stream : forall dur fs ts trailer, forallb noprint ts = true -> no_hash trailer = true ->
+  tc_parse (render_tc dur fs ts ++ trailer) = Some (messages_of dur fs ts).
 Proof. exact stream. Qed.
 Print Assumptions C20_stream.
 
 (* messages_of is balanced: every suite start has one finish of the same name, every test start inside a suite one finish of
    the same name, ignored / failed messages name the open test *)
-Theorem C20_balanced : forall dur ts, balanced (messages_of dur ts) = true.
+Theorem C20_balanced : forall dur fs ts, balanced (messages_of dur fs ts) = true.
 Proof. exact balanced_messages. Qed.
 Print Assumptions C20_balanced.
 
-(* messages_of is faithful: per group one suite bracket with the group's name, per test one bracket with the test's name,
+(* messages_of is faithful: per group one suite bracket with the group's name, per test that runs one bracket with the test's name,
    testIgnored iff ignored, one testFailed per failure in order with the failure's text and location *)
-Theorem C20_messages_faithful : forall dur ts, faithful (segments ts) (messages_of dur ts) = true.
+Theorem C20_messages_faithful : forall dur fs ts, faithful fs (segments ts) (messages_of dur fs ts) = true.
 Proof. exact faithful_messages. Qed.
 Print Assumptions C20_messages_faithful.
 
@@ -83,7 +89,7 @@ Print Assumptions C20_run_meets_spec_with_text.
 
 (* spec = the stream parses, the messages are balanced and faithful to the scenario *)
 Theorem C20_spec_reads : forall s o, spec s o = true <->
-  exists ms, tc_parse o = Some ms /\ balanced ms = true /\ faithful (segments (s_tests s)) ms = true.
+  exists ms, tc_parse o = Some ms /\ balanced ms = true /\ faithful (s_filters s) (segments (s_tests s)) ms = true.
 Proof. exact spec_reads. Qed.
 Print Assumptions C20_spec_reads.
 
@@ -114,7 +120,7 @@ Proof. exact value_rejects_unknown_escape. Qed.
 Print Assumptions C20_parser_rejects_unknown_escape.
 
 Theorem C20_hypotheses_satisfiable :
-  valid example_run = true /\ length (messages_of 42 (s_tests example_run)) = 14%nat /\ spec example_run (run example_run) = true
-  /\ tc_parse (run example_run) = Some (messages_of 42 (s_tests example_run)).
+  valid example_run = true /\ length (messages_of 42 (s_filters example_run) (s_tests example_run)) = 16%nat /\ spec example_run (run example_run) = true
+  /\ tc_parse (run example_run) = Some (messages_of 42 (s_filters example_run) (s_tests example_run)).
 Proof. exact example_valid. Qed.
 Print Assumptions C20_hypotheses_satisfiable.
